@@ -128,6 +128,10 @@ func spawnRun(spec batchSpec, tier string, seed uint64, planFile string, keepLog
 		cmd = exec.CommandContext(ctx, exe, args...)
 	}
 	env := append(os.Environ(), "ZSIM_BINHASH="+binHashOf(exe))
+	if spec.Bin == "fg" {
+		plain := filepath.Join(verifRoot(), "bin", "zsim")
+		env = append(env, "ZSIM_REF_EXE="+plain, "ZSIM_REF_BINHASH="+binHashOf(plain))
+	}
 	if spec.MaxProcs > 0 {
 		env = append(env, fmt.Sprintf("GOMAXPROCS=%d", spec.MaxProcs))
 	}
@@ -473,7 +477,7 @@ func driveMain(args []string) {
 		aggs = append(aggs, agg)
 		harness = append(harness, agg.HarnessErr...)
 		fmt.Printf("zsim: batch %-22s runs=%d steps=%d checks=%d violations=%d wall=%.1fs\n", b.Label, agg.Runs, agg.Steps, agg.Checks, len(agg.Violations), agg.WallS)
-		if b.Special == "" && !b.Race && b.Bin == "" && len(agg.Hashes) > 0 {
+		if b.Special == "" && !b.Race && (b.Bin == "" || b.Mode == "clock") && len(agg.Hashes) > 0 {
 			if bad := recheckDeterminism(agg, *tier); len(bad) > 0 {
 				harness = append(harness, "harness nondeterministic: "+strings.Join(bad, "; "))
 			}
